@@ -213,6 +213,47 @@ def h_profile(ctx, q):
     return dict(counters={"ok": 1}, sample=dict(k=k, j=j, a=a, q=q, where=where, n=len_df, boundaries=len(quantiles)), result=dict(nb=len(quantiles)))
 
 
+def h_minfreq_link(ctx, mf, n):
+    """O9.6: the documented contract is stated with min_freq, the code works with q = f(1/min_freq): on a sample of n distinct
+    values in which one value is repeated so that it holds exactly ceil(min_freq*n) rows (>= min_freq), at a solver-chosen place,
+    that value must be a boundary of the fitted ContinuousDiscretizer."""
+    import math
+
+    from AutoCarver.discretizers.utils.quantitative_discretizers import ContinuousDiscretizer
+
+    k = math.ceil(mf * n - 1e-12)
+    start = ctx.choose("start", n - k + 1)
+    vals = [float(i) for i in range(n)]
+    for i in range(start, start + k):
+        vals[i] = float(start)
+    X = pd.DataFrame({"f": vals})
+    y = pd.Series([i % 2 for i in range(n)])
+    d = ContinuousDiscretizer(["f"], min_freq=mf, copy=True, verbose=False)
+    try:
+        d.fit(X, y)
+    except Violation:
+        raise
+    except Exception as e:
+        ctx.require(False, "C08.internal-error", f"ContinuousDiscretizer(min_freq={mf}).fit raised {type(e).__name__}: {str(e)[:120]}")
+    bounds = [v for v in d.values_orders["f"] if not isinstance(v, str)]
+    frac = 1.0 / mf - math.floor(1.0 / mf + 1e-9)
+    rounds = "exact" if frac < 1e-9 else ("down" if frac < 0.5 else "up")
+    ctx.require(float(start) in bounds, "C09.frequent-value-not-boundary",
+                f"min_freq={mf}: value {float(start)} holds {k}/{n} = {k / n} >= min_freq of the rows but is not a boundary {bounds}",
+                dict(reciprocal_of_min_freq_rounds=rounds))
+    ctx.require(all(a < b for a, b in zip(bounds, bounds[1:])) and bounds[-1] == float("inf"), "C03.boundaries-not-sorted", f"boundaries {bounds}")
+    return dict(counters={"ok": 1}, sample=dict(min_freq=mf, n=n, start=start, boundaries=bounds), result=dict(nb=len(bounds)))
+
+
+def obligation_minfreq_link(tier, name):
+    mfs = [0.1, 0.15, 0.16, 0.2, 0.3, 0.35] + ([] if tier == "quick" else [0.05, 0.06, 0.07, 0.12, 0.25, 0.4, 0.45])
+    return Obligation(
+        name=name, harness=h_minfreq_link, jobs=[dict(mf=mf, n=n) for mf in mfs for n in ((50,) if tier == "quick" else (50, 100))], encodes=["ContinuousDiscretizer.__init__/fit"] + ENC,
+        bounds="50 (100) rows, all distinct but one value repeated ceil(min_freq*n) times at a solver-chosen place; min_freq in " + str(mfs),
+        outside="other repetition profiles (O9.5)", twin=False, budget_s=5.0,
+    )
+
+
 def obligation_profile(tier, name):
     return Obligation(
         name=name, harness=h_profile, jobs=[dict(q=q) for q in range(2, 11)], encodes=ENC,
